@@ -128,6 +128,25 @@ Used(T, S, op) == IF op.a # Unset THEN op.a.s ELSE Eff(T, S, "rm", op.n).s
 \* ANIM on a non-animated image: "the WHOLE render method is used instead") exactly one
 FrameOf(m) == IF m = "lines" THEN "lines" ELSE "whole"
 
+\* --- pixel size of the data a render transmits --------------------------------------
+\* geometry g = [cw, ch] cell size px, [rw, rh] rendered size in cells, [ow, oh] source size px.
+\* LINES: every strip is the full render width and one cell high ("the image is evenly split
+\* across the number of lines"); WHOLE: the minimal render size - the source size when it has
+\* no more pixels than the render size, else the render size.  ANIM on a non-animated image
+\* is documented as "the WHOLE render method is used instead" without fixing the data size:
+\* either size is accepted.
+RenderPx(g) == [w |-> g.rw * g.cw, h |-> g.rh * g.ch]
+MinimalPx(g) ==
+  IF RenderPx(g).w * RenderPx(g).h < g.ow * g.oh THEN RenderPx(g) ELSE [w |-> g.ow, h |-> g.oh]
+PxStr(p) == ToString(p.w) \o "x" \o ToString(p.h)
+PxSet(g, m) ==
+  IF m = "lines" THEN {PxStr([w |-> RenderPx(g).w, h |-> RenderPx(g).h \div g.rh])}
+  ELSE IF m = "whole" THEN {PxStr(MinimalPx(g))}
+  ELSE {PxStr(MinimalPx(g)), PxStr(RenderPx(g))}
+WellFormedGeo(g) ==
+  /\ g.cw >= 1 /\ g.ch >= 1 /\ g.rw >= 1 /\ g.rh >= 2 /\ g.ow >= 1 /\ g.oh >= 1
+  /\ g.rw * g.cw * g.rh * g.ch <= 100000 /\ g.ow * g.oh <= 100000
+
 \* the observable projection of the effective value (the render method has no getter:
 \* it is observed through the framing of an actual render without override)
 ObsEff(T, fam, S, set, n) ==
